@@ -305,6 +305,12 @@ def part_grid_reductions(chk):
                 grid.setLayout(new)
             blk = grid.getBlockFromDict({fix_axis: fix_val}, comm, draw)
             out['blk'] = None if blk is None else int(blk[3].size)
+            # windows: a range of indices, an EMPTY range (both ends of a range slider equal) and a range outside the grid
+            w0 = fix_val // 2
+            for tag, win in (('window', range(w0, fix_val + 1)), ('empty', range(fix_val, fix_val)),
+                             ('outside', range(npts[fix_axis] + 2, npts[fix_axis] + 3))):
+                b = grid.getBlockFromDict({fix_axis: win}, comm, draw)
+                out['blk_' + tag] = None if b is None else int(b[3].size)
             # the same on a communicator whose rank numbering differs from the grid's own (a Split half, root = its last member)
             half = comm.Split(comm.Get_rank() % 2, comm.Get_rank())
             hroot = half.Get_size() - 1
@@ -371,6 +377,10 @@ def part_setup_restart(chk):
                 comm = MPI.COMM_WORLD
                 grid, constants, t = setupCylindricalGrid(npts=npts, layout=lay, comm=comm, allocateSaveMemory=True, eps=0.1)
                 f = setupSave(constants, folder, comm)
+                # the broadcast is the only synchronisation between the root and the others: a rank that has the name uses the folder at once
+                if not os.path.isdir(f):
+                    raise FileNotFoundError('rank %d: setupSave returned the folder %r but it does not exist yet' % (comm.Get_rank(), os.path.basename(f)))
+                open(os.path.join(f, 'rank_%d.log' % comm.Get_rank()), 'w').close()
                 grid.writeH5Dataset(f, t_save)
                 return f
 
@@ -401,7 +411,7 @@ def part_setup_restart(chk):
                 if d.startswith('simulation_'):
                     shutil.rmtree(os.path.join(work, d), ignore_errors=True)
             case_w = dict(case, phase='set-up + setupSave + checkpoint write', nranks=nw)
-            refw = run_policies(chk, nw, body_write, case_w, 'set-up / save', policies=())
+            refw = run_policies(chk, nw, body_write, case_w, 'set-up / save', policies=('reverse', 'random'))
             if refw is None:
                 continue
             if len(set(refw.values())) != 1:
